@@ -122,6 +122,24 @@ def collect(ctx: Ctx):
         cs.append(tuple(range(1, len(s), rng.choice([1, 1, 2, 5]))))
         for cuts in cs:
             traces.append({"parts": parts, "cuts": list(cuts), "events": run_real(s, cuts)})
+    # every value of the low size byte (and a few two-byte sizes): a packet of that size followed by a small one, cut at the usual places
+    for size in (list(range(0, 256)) if not ctx.quick else list(range(0, 40)) + rng.sample(range(40, 256), 30)) + [256, 266, 522, 2570, 2815]:
+        parts = [{"g": [], "p": B(pkt(bytes(rng.choice([0x0A, 0x0D, 0x00, 0x83, 0x70, 0x20, rng.randrange(256)]) for _ in range(size))))}, {"g": [], "p": B(pkt(b"\x01\x02"))}]
+        s = concat(parts)
+        L = len(parts[0]["p"])
+        for cuts in ((), (1,), (2,), (3,), (4,), (6,), (8,), (L - 1,), (L,), (L + 1,), (3, L), (6, L + 8), tuple(range(1, len(s), 7))):
+            cuts = tuple(c for c in cuts if 0 < c < len(s))
+            traces.append({"parts": parts, "cuts": list(cuts), "events": run_real(s, cuts)})
+    # a packet whose payload ENDS with what looks like a complete packet of its own, cut exactly in front of that inner look-alike (and elsewhere)
+    for _ in range(ctx.pick(12, 150)):
+        inner = pkt(bytes(rng.randrange(256) for _ in range(rng.choice([0, 1, 5, 20]))), typ=rng.choice([3, 1, 6]))
+        outer = pkt(bytes(rng.randrange(256) for _ in range(rng.choice([0, 3, 16, 40]))) + inner)
+        parts = [{"g": [], "p": B(outer)}, {"g": [], "p": B(pkt(b"\x09"))}]
+        s = concat(parts)
+        at = len(outer) - len(inner)
+        for cuts in ((at,), (at, len(outer)), (2, at), (at - 1,), (at + 1, len(outer)), (at, len(outer) + 3), ()):
+            cuts = tuple(sorted({c for c in cuts if 0 < c < len(s)}))
+            traces.append({"parts": parts, "cuts": list(cuts), "events": run_real(s, cuts)})
     return traces
 
 
